@@ -66,6 +66,12 @@ CHECKS = {
    design_ref="DESIGN.md section 4 C05",
    note="Primitive-library semantics (math, NumPy, libm) are assumed; templates are proved to name the right primitive with operands in order. The step from these contracts to 'the emitted program evaluates the graph' is an induction argument, not mechanised. Not under contract: callable templates (upcast/downcast/list/item), make_apply wrappers, integer/bitwise kinds, value-text round trip.",
    technique="contract-based deductive verification by structural induction: per-template obligations decided by parser/compiler + spec tables, printer-step contract on the real code with callee contracts, exhaustive ghost-state enumeration for name registration"),
+ "C06": dict(
+   category="proof",
+   text="Parse-back contract of the real printers per operation kind (induction step of a structural induction): every StableHLO/CHLO operator named by the table exists in an independent operator inventory and is the operator that implements the kind; for every kind and every combination of operand states (symbol / shared node / inline node / constant) and need_ref, the text emitted by the real stablehlo.Printer parses back (independent dag parser) to the node: operator, operands in order, ComparisonDirection = kind, `:$ref` present iff needed, bound once and before use, ConstantLike attached to a defined operand with the value preserved; XLA client templates are builder calls with the spec's name and operands in order; numeric constants print as ScalarLike(<defined like>, value).",
+   design_ref="DESIGN.md section 4 C06",
+   note="Assumed: the operator inventories written from the public dialect definitions (not installed), operator semantics. Not under contract: Pat<> wrapper, alternative constant context, PrinterBase step for the XLA target (C05/O2 covers the shared code). Known finding (open): StableHLO_PosOp does not exist.",
+   technique="contract-based verification by structural induction: per-kind parse-back obligations on the real printers decided by an independent dag parser and spec tables"),
 }
 NA_PENDING = "check not built yet in this session (planned, see DESIGN.md section 4)"
 NA = {
